@@ -35,7 +35,14 @@ def main():
             r["apply_rc"] = rc
             rc, out = build(wt)
             r["build_rc"] = rc
-            rc, out = sh("ctest --test-dir _build -j6 --timeout 900 2>&1 | tail -5", cwd=wt)
+            # the repository's own suite is flaky under load on the unmodified tree too (DepsLogTest.LotsOfDeps segfaults in
+            # roughly one run out of ten on a busy machine): up to three attempts, all recorded
+            r["ctest_attempts"] = []
+            for _attempt in range(3):
+                rc, out = sh("ctest --test-dir _build -j6 --timeout 900 2>&1 | tail -5", cwd=wt)
+                r["ctest_attempts"].append(out[-200:])
+                if "100% tests passed" in out:
+                    break
             r["ctest_rc"] = rc
             r["ctest_tail"] = out[-400:]
             rc2, out2 = sh("_build/ninja_test 2>&1 | tail -2", cwd=wt)
